@@ -98,6 +98,25 @@ def run_pair(an, bn):
         for static, payload in ((True, np.array([1.0])), (False, np.array([1])), (True, np.array([1]))):
             r3, v3 = outcome(lambda s=static, p=payload: variant(s, p))
             obs["linksame"].append(bool(r3 == "ok" and abs(v3 - ref) <= 1e-12 * max(1.0, abs(ref))))
+
+        # ... and through adapters that leave the quantity alone: pass-through, scalar -> grid, grid -> scalar
+        def via(kind):
+            grid = fm.UniformGrid((3, 2))
+            ada = {"scale": lambda: fm.adapters.Scale(1.0), "v2g": lambda: fm.adapters.ValueToGrid(grid),
+                   "g2v": lambda: fm.adapters.GridToValue(np.mean)}[kind]()
+            gs = grid if kind == "g2v" else fm.NoGrid()
+            gt = grid if kind == "v2g" else fm.NoGrid()
+            o, i = fm.Output(name="Out"), fm.Input(name="In")
+            o >> ada >> i  # pylint: disable=expression-not-assigned
+            i.ping()
+            o.push_info(fm.Info(time=day(0), grid=gs, units=an))
+            i.exchange_info(fm.Info(time=day(0), grid=gt, units=bn))
+            o.push_data(np.full((2, 1), 1.0) if kind == "g2v" else np.array(1.0), day(0))
+            got = i.pull_data(day(0))
+            return float(np.asarray(fm.data.get_magnitude(got)).ravel()[0])
+        for kind in ("scale", "v2g", "g2v"):
+            r3, v3 = outcome(lambda k=kind: via(k))
+            obs["linksame"].append(bool(r3 == "ok" and abs(v3 - ref) <= 1e-12 * max(1.0, abs(ref))))
     # publishing a quantity given in units a on an output that declares units b
     res, _ = outcome(lambda: fm.data.prepare(fm.UNITS.Quantity(np.array([1.0]), ua),
                                              fm.Info(time=day(0), grid=fm.NoGrid(), units=bn)))
